@@ -18,7 +18,7 @@ TARGETS = ['LcdbModel.Props.C05']
 
 
 def run(tier):
-    return crashcheck.run_crash(PID, tier, TAGS, THEOREMS, IMPORTS, TARGETS, '0134', 'nested', quick=(6, 30, 16), thorough=(48, 60, 120))
+    return crashcheck.run_crash(PID, tier, TAGS, THEOREMS, IMPORTS, TARGETS, '0134', 'nested', quick=(6, 30, 16), thorough=(30, 60, 50))
 
 
 def replay(path):
